@@ -154,8 +154,8 @@ func (p *Parser) parseComparisonExpression() (ast.Expression, error) {
 		operator := p.currentToken.Literal
 		p.advance() // Consume LIKE/ILIKE
 
-		// Parse pattern
-		pattern, err := p.parsePrimaryExpression()
+		// Parse pattern (an expression such as 'x' || '%', not just a primary)
+		pattern, err := p.parseStringConcatExpression()
 		if err != nil {
 			return nil, goerrors.InvalidSyntaxError(
 				fmt.Sprintf("failed to parse LIKE pattern: %v", err),
@@ -338,8 +338,9 @@ func (p *Parser) parseComparisonExpression() (ast.Expression, error) {
 			}, nil
 		}
 
-		// Parse the right side of the expression
-		right, err := p.parsePrimaryExpression()
+		// Parse the right side of the expression: a full arithmetic / concatenation
+		// expression like the left side ("a = b + 1"), not just a primary.
+		right, err := p.parseStringConcatExpression()
 		if err != nil {
 			return nil, err
 		}
